@@ -246,6 +246,21 @@ impl SplitVec {
     pub fn all(&self) -> (r: &[Filter]) ensures r@ == self.items@ { unimplemented!() }
     #[verifier::external_body]
     pub fn split_index(&self) -> (r: usize) ensures r == self.split_index { unimplemented!() }
+    // ASSUMED contract of the unsafe SplitVec::insert (bounded Kani harness verif_c13_split::splitvec_insert on the real code):
+    // after the split the value is appended; before it, the value takes the split position, the filter that was there (if
+    // any) moves to the end, everything else stays
+    #[verifier::external_body]
+    pub fn insert(&mut self, value: Filter, after_split: bool)
+        requires old(self).wf(),
+        ensures final(self).wf(),
+            after_split ==> final(self).split_index == old(self).split_index && final(self).items@ == old(self).items@.push(value),
+            !after_split ==> final(self).split_index == old(self).split_index + 1
+                && final(self).items@.len() == old(self).items@.len() + 1
+                && final(self).items@.subrange(0, old(self).split_index as int) == old(self).items@.subrange(0, old(self).split_index as int)
+                && final(self).items@[old(self).split_index as int] == value
+                && (forall |j: int| old(self).split_index < j < old(self).items@.len() ==> final(self).items@[j] == old(self).items@[j])
+                && (old(self).split_index < old(self).items@.len() ==> final(self).items@[old(self).items@.len() as int] == old(self).items@[old(self).split_index as int]),
+    { unimplemented!() }
 }
 pub struct FilterSet { pub filters: SplitVec }
 
@@ -268,6 +283,38 @@ pub open spec fn selected(fs: FilterSet, path: Seq<char>) -> bool {
     let pos_hit = exists|j: int| split <= j < items.len() && matches(#[trigger] items[j], path);
     !skip_hit && (!any_pos || pos_hit)
 }
+// what adding a positive / a skip filter means for the selection of EVERY path
+pub open spec fn after_include(before: FilterSet, f: Filter, after: FilterSet) -> bool {
+    forall |p: Seq<char>| #[trigger] selected(after, p) == (
+        if before.filters.split_index < before.filters.items@.len() { selected(before, p) || (matches(f, p) && !(exists|j: int| 0 <= j < before.filters.split_index && matches(#[trigger] before.filters.items@[j], p))) }
+        else { matches(f, p) && selected(before, p) })
+}
+pub open spec fn after_exclude(before: FilterSet, f: Filter, after: FilterSet) -> bool {
+    forall |p: Seq<char>| #[trigger] selected(after, p) == (selected(before, p) && !matches(f, p))
+}
+"""
+
+INSERT_HINT = """
+        proof {
+            let b = *old(self); let a = *self;
+            let bi = b.filters.items@; let ai = a.filters.items@; let s = b.filters.split_index as int;
+            if inclusive {
+                assert forall |p: Seq<char>| #[trigger] selected(a, p) == (
+                    if s < bi.len() { selected(b, p) || (matches(filter, p) && !(exists|j: int| 0 <= j < s && matches(#[trigger] bi[j], p))) }
+                    else { matches(filter, p) && selected(b, p) }) by {
+                    assert(forall |j: int| 0 <= j < bi.len() ==> ai[j] == bi[j]);
+                    assert(ai[bi.len() as int] == filter);
+                    if matches(filter, p) { assert(matches(ai[bi.len() as int], p)); }
+                }
+            } else {
+                assert forall |p: Seq<char>| #[trigger] selected(a, p) == (selected(b, p) && !matches(filter, p)) by {
+                    assert(forall |j: int| 0 <= j < s ==> ai[j] == ai.subrange(0, s)[j] && bi[j] == bi.subrange(0, s)[j]);
+                    assert(ai[s] == filter);
+                    if matches(filter, p) { assert(matches(ai[s], p)); }
+                    if s < bi.len() { assert(ai[bi.len() as int] == bi[s]); if matches(bi[s], p) { assert(matches(ai[bi.len() as int], p)); } }
+                }
+            }
+        }
 """
 
 PIN_POSITION = "if let Some(index) = filters.iter().position(|f| f.is_match(entry_path))"
@@ -284,10 +331,28 @@ def filter_file(S: Sources):
         requires self.filters.wf(),
         ensures r == selected(*self, entry_path@),
     """)
-    secs = [ghost("C13 filter spec and stand-ins", FILTER_SPEC, kind="trusted")] + wrap_impl("impl FilterSet", [sec])
+    ins = [
+        code_fn(f, f.find_fn("include", impl=r"impl FilterSet\b"), "FilterSet::include", clauses="""
+            requires old(self).filters.wf(),
+            ensures final(self).filters.wf(), after_include(*old(self), filter, *final(self)),
+        """),
+        code_fn(f, f.find_fn("exclude", impl=r"impl FilterSet\b"), "FilterSet::exclude", clauses="""
+            requires old(self).filters.wf(),
+            ensures final(self).filters.wf(), after_exclude(*old(self), filter, *final(self)),
+        """),
+        code_fn(f, f.find_fn("insert_filter", impl=r"impl FilterSet\b"), "FilterSet::insert_filter", fn_end=INSERT_HINT, clauses="""
+            requires old(self).filters.wf(),
+            ensures final(self).filters.wf(),
+                inclusive ==> after_include(*old(self), filter, *final(self)),
+                !inclusive ==> after_exclude(*old(self), filter, *final(self)),
+        """),
+    ]
+    secs = [ghost("C13 filter spec and stand-ins", FILTER_SPEC, kind="trusted")] + wrap_impl("impl FilterSet", [sec] + ins)
     import copy
     csecs = copy.deepcopy(secs) + [ghost("canaries", """
 pub fn canary_is_match(fs: &FilterSet, p: &str) requires fs.filters.wf() { let r = fs.is_match(p); assert(false); }
+pub fn canary_include(fs: &mut FilterSet, f: Filter) requires old(fs).filters.wf() { fs.include(f); assert(false); }
+pub fn canary_exclude(fs: &mut FilterSet, f: Filter) requires old(fs).filters.wf() { fs.exclude(f); assert(false); }
 """, kind="lemma")]
     return [VerusFile("c13_is_match", secs), VerusFile("c13_is_match_canary", csecs, expect_fail=True)]
 
